@@ -143,6 +143,16 @@ theorem C08_complete (cfg : Cfg) (ps0 : PS) (salt bRand : Bytes) (a : Nat)
     rw [e2]; simp only []
     rw [e3.1]
 
+/-- **M6 is over the advertised identifier.**  In the setting of `C08_complete` the identifier sent in M6
+    and covered by the accessory's signature is the identifier the accessory advertises
+    (`advertisedId`, the `id` of its Bonjour TXT record): the M6 plaintext is
+    `TLV(advertised id, accessory LTPK, sig)` and `sig` verifies over `HKDF(K) ‖ advertised id ‖ LTPK`. -/
+theorem C08_m6_over_advertised_id (cfg : Cfg) (ps0 : PS) (K : Bytes) (ok : CryptoOK cfg.c ps0.ltpk) :
+    let sig := cfg.c.sign (cfg.c.hkdf K P5_SALT P5_INFO ++ ps0.mac ++ ps0.ltpk)
+    accSub ps0 sig = Tlv.encode [(T_USERNAME, advertisedId ps0), (T_PUBLIC_KEY, ps0.ltpk), (T_PROOF, sig)] ∧
+    cfg.c.sigVerify ps0.ltpk sig (cfg.c.hkdf K P5_SALT P5_INFO ++ advertisedId ps0 ++ ps0.ltpk) = some true :=
+  ⟨rfl, ok.accSig _⟩
+
 /-- **Nothing that happened before matters.**  A served M1 always installs a fresh, unverified verifier
     built from this request's own randomness and the current setup code — whatever verifier was there
     (a failed attempt, an abandoned or even a verified exchange) or none.  (`C08_complete` is stated for an
@@ -164,11 +174,11 @@ theorem C08_identity_stable (cfg : Cfg) (ps : PS) (r : Req) :
   step_identity cfg ps r
 
 /-- **Bystanders are invisible.**  Connections being made and lost and other (refused) requests on other
-    connections leave the pair-setup state unchanged: a history of events behaves exactly like the
-    sequence of its pair-setup requests. -/
-theorem C08_bystanders_invisible (cfg : Cfg) (ps : PS) (evs : List Ev) :
+    connections leave the pair-setup state unchanged: a history of events (in which the owner does not
+    unpair the accessory) behaves exactly like the sequence of its pair-setup requests. -/
+theorem C08_bystanders_invisible (cfg : Cfg) (ps : PS) (evs : List Ev) (hu : ∀ e ∈ evs, e ≠ Ev.unpair) :
     runEv cfg ps evs = run cfg ps (reqsOf evs) :=
-  runEv_eq_run cfg evs ps
+  runEv_eq_run cfg evs ps hu
 
 /-- **Completeness under interleaving and after any history**: `C08_complete` for any event list whose
     pair-setup requests are exactly the controller's three (bystander connections coming and going and
@@ -176,7 +186,7 @@ theorem C08_bystanders_invisible (cfg : Cfg) (ps : PS) (evs : List Ev) :
     abandoned or completed-but-unrecorded exchange).  A bystander's own pair-setup request is excluded:
     any connection may replace the single SRP session with its M1 (DESIGN §9). -/
 theorem C08_complete_interleaved (cfg : Cfg) (ps0 : PS) (salt bRand : Bytes) (a : Nat)
-    (ident cltpk csig u s2 b2 s3 b3 : Bytes) (evs : List Ev)
+    (ident cltpk csig u s2 b2 s3 b3 : Bytes) (evs : List Ev) (hu : ∀ e ∈ evs, e ≠ Ev.unpair)
     (hp : ps0.paired = []) (hN : 1 < cfg.G.N) (hg : Nat.Coprime cfg.G.g cfg.G.N)
     (ok : CryptoOK cfg.c ps0.ltpk) (huuid : cfg.c.uuidOf ident = some u) :
     let srv := Srp.mk cfg.c.H cfg.G SRP_USER ps0.pincode salt (bytesToNat bRand)
@@ -189,7 +199,7 @@ theorem C08_complete_interleaved (cfg : Cfg) (ps0 : PS) (salt bRand : Bytes) (a 
     (runEv cfg ps0 evs).2 = [.m2 salt srv.Bb, .m4 cl.HAMK, .m6 (cfg.c.aeadEnc key NONCE6 (accSub ps0 sig))] ∧
     (runEv cfg ps0 evs).1.paired = [(u, cltpk, PERM_ADMIN)] := by
   intro srv cl key sig hevs hsig
-  rw [runEv_eq_run, hevs]
+  rw [runEv_eq_run cfg evs ps0 hu, hevs]
   have h := C08_complete cfg ps0 salt bRand a ident cltpk csig u s2 b2 s3 b3 hp hN hg ok huuid hsig
   exact ⟨h.1, h.2.2.2⟩
 
